@@ -103,8 +103,11 @@ def resample_to_approx_dt(asig, target_dt=0.01, even=True):
     elif factor > 1:
         factor = int(np.ceil(factor))
     else:
-        factor = 1 / np.floor(1 / factor)
+        n_skip = np.floor(1 / factor)
+        factor = 1 / n_skip
     new_npts = factor * asig.npts
+    if factor < 1:
+        new_npts = asig.npts / n_skip  # (1 / 49.) * 392 is 7.999999999999999
     if even:
         new_npts = 2 * int(new_npts / 2)
     new_npts = int(round(new_npts))  # scipy needs an integer count (factor is a float when decimating or dt == target_dt)
